@@ -650,6 +650,10 @@ func (rw *rewriter) post(c *astutil.Cursor) bool {
 	case *ast.RangeStmt:
 		if isChan(rw.typeOf(n.X)) {
 			c.Replace(rw.rangeChan(n))
+		} else if t := rw.typeOf(n.X); t != nil {
+			if _, ok := t.Underlying().(*types.Map); ok {
+				rw.rangeMap(n)
+			}
 		}
 	case *ast.SelectStmt:
 		if len(n.Body.List) > 0 {
@@ -774,6 +778,61 @@ func (rw *rewriter) rangeChan(n *ast.RangeStmt) ast.Stmt {
 	head = append(head, &ast.IfStmt{Cond: &ast.UnaryExpr{Op: token.NOT, X: ok}, Body: &ast.BlockStmt{List: []ast.Stmt{&ast.BranchStmt{Tok: token.BREAK}}}})
 	body := &ast.BlockStmt{List: append(head, n.Body.List...)}
 	return &ast.ForStmt{Init: define([]ast.Expr{ch}, n.X), Body: body}
+}
+
+// rangeMap removes Go's randomised map iteration order from the set of
+// uncontrolled inputs: `for k, v := range m { body }` iterates over
+// simrt.MapKeys(m) (keys in a deterministic order while a simulation is
+// active) and looks each value up, skipping keys deleted meanwhile. Every order
+// it produces is one the runtime could produce.
+func (rw *rewriter) rangeMap(n *ast.RangeStmt) {
+	rw.used = true
+	counts["rangemap"]++
+	m := rw.tmp("m")
+	k := rw.tmp("k")
+	ok := rw.tmp("ok")
+	v := rw.tmp("v")
+	var head []ast.Stmt
+	wantKey := n.Key != nil && !isBlank(n.Key)
+	wantVal := n.Value != nil && !isBlank(n.Value)
+	head = append(head, define([]ast.Expr{v, ok}, &ast.IndexExpr{X: m, Index: k}))
+	head = append(head, &ast.IfStmt{Cond: &ast.UnaryExpr{Op: token.NOT, X: ok}, Body: &ast.BlockStmt{List: []ast.Stmt{&ast.BranchStmt{Tok: token.CONTINUE}}}})
+	head = append(head, assign([]ast.Expr{ast.NewIdent("_")}, v))
+	if n.Tok == token.DEFINE {
+		if wantKey {
+			head = append(head, define([]ast.Expr{n.Key}, k), assign([]ast.Expr{ast.NewIdent("_")}, n.Key))
+		}
+		if wantVal {
+			head = append(head, define([]ast.Expr{n.Value}, v), assign([]ast.Expr{ast.NewIdent("_")}, n.Value))
+		}
+	} else {
+		if wantKey {
+			head = append(head, assign([]ast.Expr{n.Key}, k))
+		}
+		if wantVal {
+			head = append(head, assign([]ast.Expr{n.Value}, v))
+		}
+	}
+	n.Body.List = append(head, n.Body.List...)
+	// for _vsm := m; ... cannot be expressed in a range header; evaluate the
+	// map once through a closure-free trick: range over MapKeys(m) and keep m
+	// in a variable declared by an enclosing if-less block is not possible
+	// without changing the statement kind, so the map expression is
+	// evaluated twice only when it is a simple expression.
+	if !simpleExpr(n.X) {
+		fatalf("%s: range over a map expression with side effects is not supported", rw.fset.Position(n.Pos()))
+	}
+	// replace uses of the temporary m by the (simple) map expression itself
+	for _, st := range head {
+		ast.Inspect(st, func(x ast.Node) bool {
+			if ie, ok := x.(*ast.IndexExpr); ok && ie.X == ast.Expr(m) {
+				ie.X = n.X
+			}
+			return true
+		})
+	}
+	n.Key, n.Value, n.Tok = ast.NewIdent("_"), k, token.DEFINE
+	n.X = simCall("MapKeys", n.X)
 }
 
 func isBlank(e ast.Expr) bool {
